@@ -350,10 +350,10 @@ var c16Hostile = []string{"a\nb", "a\rb", "tab\there", "\x1b[31mred", "\x00", "\
 
 func TestC16(t *testing.T) {
 	hx.Main(t, "C16", func(r *hx.Run) {
-		r.Rule = "(a) renderer in isolation: arbitrary (line, column) in [-3, 2*len] and arbitrary source bytes (empty, no trailing newline, CRLF, tabs, wide/combining characters, invalid UTF-8, very long lines) through Error.PrettyPrint and GetTemplateFields; never panics, header line exact, snippet = the referenced source line, caret at the terminal cell of the reported column, nothing for a non-existent line. (b) end to end: generated workflows in which 1-6 keys/values are replaced by hostile strings (line breaks, controls, ESC, NEL/LS/PS, wide/RTL, quotes, %, %!s(, ' [x]', ']', ': 1:1: ', invalid UTF-8) so that they are echoed in messages; rendered in -oneline (with/without colour), default (with/without colour), -format '{{json .}}', a JSON-Lines template and a field-by-field template; one output line per diagnostic which the shipped problem-matcher regexp parses back to the same fields, default mode equals a reference rendering, JSON round-trips, no message contains a line break; one quarter of the workflows is also linted as one of 2-3 files of a single invocation (argument order unlike the lexical order): the printed records are the returned diagnostics in the returned order. Non-trivial: (a) existing line with column inside it; (b) >= 1 message echoing a hostile character; distinct = input hash."
+		r.Rule = "(a) renderer in isolation: arbitrary (line, column) in [-3, 2*len] and arbitrary source bytes (empty, no trailing newline, CRLF, tabs, wide/combining characters, invalid UTF-8, lines of 4095 / 4096 / 4097 / 8500 / 20000 / 70000 bytes before or at the referenced line) through Error.PrettyPrint and GetTemplateFields; never panics, header line exact, snippet = the referenced source line, caret at the terminal cell of the reported column, nothing for a non-existent line. (b) end to end: generated workflows in which 1-6 keys/values are replaced by hostile strings (line breaks, controls, ESC, NEL/LS/PS, wide/RTL, quotes, %, %!s(, ' [x]', ']', ': 1:1: ', invalid UTF-8) so that they are echoed in messages; rendered in -oneline (with/without colour), default (with/without colour), -format '{{json .}}', a JSON-Lines template and a field-by-field template; one output line per diagnostic which the shipped problem-matcher regexp parses back to the same fields, default mode equals a reference rendering, JSON round-trips, no message contains a line break; one quarter of the workflows is also linted as one of 2-3 files of a single invocation (argument order unlike the lexical order): the printed records are the returned diagnostics in the returned order. Non-trivial: (a) existing line with column inside it; (b) >= 1 message echoing a hostile character; distinct = input hash."
 		r.Assumptions = []string{"terminal cell width of a prefix is computed with go-runewidth (the de-facto standard East-Asian-width table); reported columns are byte columns into the source line", "matcher: /repo/.github/actionlint-matcher.json as shipped"}
 		lineGen := rapid.OneOf(
-			rapid.SampledFrom([]string{"", "on: push", "  key: value", "\tkey:\tvalue", "name: 日本語のジョブ ${{ x }}", "e\u0301e\u0301 x", "😀 emoji: ${{ y }}", "    - run: echo 'hi'", "a\rb", "\xff\xfe bad utf8", strings.Repeat("x", 70000), " ", "\u202eabc"}),
+			rapid.SampledFrom([]string{"", "on: push", "  key: value", "\tkey:\tvalue", "name: 日本語のジョブ ${{ x }}", "e\u0301e\u0301 x", "😀 emoji: ${{ y }}", "    - run: echo 'hi'", "a\rb", "\xff\xfe bad utf8", strings.Repeat("x", 70000), " ", "\u202eabc", strings.Repeat("k", 4095), "v: " + strings.Repeat("b64", 1366), strings.Repeat("z", 4097), strings.Repeat("long ", 1700), strings.Repeat("w", 20000)}),
 			rapid.StringN(0, 40, -1),
 			rapid.StringOfN(rapid.RuneFrom([]rune{'a', ' ', '\t', '日', '本', '\u0301', '😀', ':', '$', '{', '}'}), 0, 30, -1),
 		)
